@@ -452,6 +452,9 @@ inductive SDB.Op where
   /-- `StageContractState` of a storage that `OpenContractState` created on `content` while `c` had
   no staged storage, after the writes `ws` -/
   | stageNew (c : Nat) (content : AMap Nat) (ws : List (Nat × SVal))
+  /-- `ContractState.Rollback(r)` through a handle on the staged storage of `c` (a VM recovery
+  point reverting a nested call, contract/vm_state.go `revertState`) -/
+  | storageRollback (c r : Nat)
   /-- `BlockState.Rollback` -/
   | rollback (sn : BlockSnap)
 
@@ -464,9 +467,25 @@ def BlockSnap.covers (base sn : BlockSnap) : Bool :=
       | some r => decide (p.2 ≤ r)
       | none => false)
 
+/-- A contract-level revision `r` of `c` does not go below what the block snapshot recorded for `c`
+(a storage the snapshot does not know was staged later: any revision of it is above the snapshot). -/
+def revOK (snap : AMap Nat) (c r : Nat) : Bool :=
+  match snap.get c with
+  | some r0 => decide (r0 ≤ r)
+  | none => true
+
+/-- `ContractState.Rollback(r)` on the staged storage of `c`. -/
+def SDB.storageRollback (s : SDB) (c r : Nat) : Option SDB :=
+  match s.cache.get c with
+  | some st =>
+    match st.buf.rollback r with
+    | some b => some { s with cache := s.cache.set c { st with buf := b } }
+    | none => none
+  | none => none
+
 /-- Run a history of block-level mutations above the snapshot `base`. `none`: an operation was not
 admissible (a write through a handle on a storage that is not staged, staging over a staged
-storage, a rollback below `base` or to an invalidated snapshot). -/
+storage, a rollback - block-level or contract-level - below `base` or to an invalidated snapshot). -/
 def SDB.run (base : BlockSnap) : SDB → List SDB.Op → Option SDB
   | s, [] => some s
   | s, .putState a v :: t => SDB.run base (s.putState a v) t
@@ -482,11 +501,236 @@ def SDB.run (base : BlockSnap) : SDB → List SDB.Op → Option SDB
     match s.cache.get c with
     | none => SDB.run base (s.stage c ((Storage.new content).writes ws)) t
     | some _ => none
+  | s, .storageRollback c r :: t =>
+    if revOK base.storage c r then
+      match s.storageRollback c r with
+      | some s' => SDB.run base s' t
+      | none => none
+    else none
   | s, .rollback sn :: t =>
     if base.covers sn then
       match s.blockRollback sn with
       | some s' => SDB.run base s' t
       | none => none
     else none
+
+/-! ### histories with explicit, nested block snapshots; the surviving operations
+
+The callers take a `BlockState.Snapshot()` per transaction and revert to it when the transaction is
+rejected; contract-level recovery points nest inside. A history is a list of `BOp`; `runB` executes it
+on the model (log + index stacks + revisions); `survivors` is the *list of operations that were not
+reverted* - a function of the history alone; `runPlain` executes a list of operations with no
+snapshot at all. `Props.C12.reverted_never_happened` says the two agree. -/
+
+/-- One mutation applied to a `StateDB`, without reference to any snapshot. -/
+def SDB.apply (s : SDB) : SDB.Op → Option SDB
+  | .putState a v => some (s.putState a v)
+  | .setData c k v =>
+    match s.cache.get c with
+    | some st => some { s with cache := s.cache.set c (st.setData k v) }
+    | none => none
+  | .deleteData c k =>
+    match s.cache.get c with
+    | some st => some { s with cache := s.cache.set c (st.deleteData k) }
+    | none => none
+  | .stageNew c content ws =>
+    match s.cache.get c with
+    | none => some (s.stage c ((Storage.new content).writes ws))
+    | some _ => none
+  | .storageRollback c r => s.storageRollback c r
+  | .rollback sn => s.blockRollback sn
+
+/-- A history with nested block snapshots. -/
+inductive BOp where
+  /-- a mutation (`.rollback sn` is not admitted here: block rollbacks go through `rollbackTo`) -/
+  | op (o : SDB.Op)
+  /-- `BlockState.Snapshot()`, pushed on the stack of live snapshots -/
+  | snap
+  /-- `BlockState.Rollback` to the `j`-th live snapshot; the later ones are discarded -/
+  | rollbackTo (j : Nat)
+
+/-- Admissibility of a mutation while `top` is the innermost live block snapshot: a contract-level
+rollback must not go below it (`revertState` only reverts to recovery points of the running
+transaction, and the executor's snapshot was taken before the transaction started). -/
+def BOp.admissible (top : Option BlockSnap) : SDB.Op → Bool
+  | .rollback _ => false
+  | .storageRollback c r =>
+    match top with
+    | some sn => revOK sn.storage c r
+    | none => true
+  | _ => true
+
+/-- Execute a history on the model. -/
+def runB : SDB × List BlockSnap → List BOp → Option (SDB × List BlockSnap)
+  | st, [] => some st
+  | (s, sn), .op o :: t =>
+    if BOp.admissible sn.getLast? o then
+      match s.apply o with
+      | some s' => runB (s', sn) t
+      | none => none
+    else none
+  | (s, sn), .snap :: t => runB (s, sn ++ [s.blockSnapshot]) t
+  | (s, sn), .rollbackTo j :: t =>
+    match sn[j]? with
+    | none => none
+    | some b =>
+      match s.blockRollback b with
+      | some s' => runB (s', sn.take (j + 1)) t
+      | none => none
+
+/-- The surviving operations: `marks[j]` is the length of the surviving list when the `j`-th live
+snapshot was taken; reverting to it truncates the list there. (This is the list the harness replays
+on a fresh StateDB: its field `live`.) -/
+def survivorsAux : List SDB.Op × List Nat → List BOp → List SDB.Op × List Nat
+  | st, [] => st
+  | (live, marks), .op o :: t => survivorsAux (live ++ [o], marks) t
+  | (live, marks), .snap :: t => survivorsAux (live, marks ++ [live.length]) t
+  | (live, marks), .rollbackTo j :: t =>
+    match marks[j]? with
+    | some m => survivorsAux (live.take m, marks.take (j + 1)) t
+    | none => survivorsAux (live, marks) t
+
+def survivors (h : List BOp) : List SDB.Op := (survivorsAux ([], []) h).1
+
+/-- Execute operations one after the other; no snapshot involved. -/
+def runPlain : SDB → List SDB.Op → Option SDB
+  | s, [] => some s
+  | s, o :: t =>
+    match s.apply o with
+    | some s' => runPlain s' t
+    | none => none
+
+/-! ### an independent specification: plain maps, a snapshot is a copy
+
+No log, no index stacks, no revisions: the visible account records and the visible content of every
+staged storage are maps; `snap` pushes a copy of both, `rollbackTo j` puts the `j`-th copy back.
+(The Go reference of harness/c12 - `refStore` with `snapRecs` - is this.) -/
+
+structure Spec where
+  acct : AMap AVal
+  staged : AMap (AMap Nat)
+deriving Repr, DecidableEq
+
+/-- writes applied to a content map -/
+def applyWrites : AMap Nat → List (Nat × SVal) → AMap Nat
+  | m, [] => m
+  | m, (k, some v) :: t => applyWrites (m.set k v) t
+  | m, (k, none) :: t => applyWrites (m.erase k) t
+
+namespace Spec
+
+def apply (σ : Spec) : SDB.Op → Spec
+  | .putState a v => { σ with acct := σ.acct.set a v }
+  | .setData c k v =>
+    match σ.staged.get c with
+    | some m => { σ with staged := σ.staged.set c (m.set k v) }
+    | none => σ
+  | .deleteData c k =>
+    match σ.staged.get c with
+    | some m => { σ with staged := σ.staged.set c (m.erase k) }
+    | none => σ
+  | .stageNew c content ws => { σ with staged := σ.staged.set c (applyWrites content ws) }
+  | .storageRollback _ _ => σ      -- not part of the specification (see `Spec.covers`)
+  | .rollback _ => σ
+
+def runPlain (σ : Spec) (ops : List SDB.Op) : Spec := ops.foldl Spec.apply σ
+
+/-- A history with snapshots as copies. -/
+def run : Spec × List Spec → List BOp → Spec × List Spec
+  | st, [] => st
+  | (σ, stk), .op o :: t => run (σ.apply o, stk) t
+  | (σ, stk), .snap :: t => run (σ, stk ++ [σ]) t
+  | (σ, stk), .rollbackTo j :: t =>
+    match stk[j]? with
+    | some σ' => run (σ', stk.take (j + 1)) t
+    | none => run (σ, stk) t
+
+end Spec
+
+/-- The histories the specification speaks about: no contract-level rollback (its specification is
+the per-buffer one, `rollback_restores_nested`), no raw block rollback. -/
+def BOp.plain : BOp → Bool
+  | .op (.storageRollback _ _) => false
+  | .op (.rollback _) => false
+  | _ => true
+
+/-- What the model state shows, compared with a specification state: every account reads the same,
+the same contracts are staged and every key of a staged storage reads the same. -/
+def Abs (s : SDB) (σ : Spec) : Prop :=
+  (∀ a, s.view a = σ.acct.get a) ∧
+  (∀ c, match s.cache.get c, σ.staged.get c with
+    | some st, some m => ∀ k, st.view k = m.get k
+    | none, none => True
+    | _, _ => False)
+
+/-! ### what reaches the key/value store
+
+`Commit` writes, per buffer, the value of the top entry of every key (`stateBuffer.stage`), plus the
+trie nodes (`Trie.StageUpdates`, here: the trie content as one datum) and the root marker.
+`ContractState.SetCode` / `SetRawKV` write to the store AT CALL TIME (`saveData → store.Set`), under
+the hash of the bytes: they are not part of any snapshot and a rollback does not take them back. -/
+
+inductive Datum where
+  | acct (v : AVal)                 -- a marshalled account record
+  | sval (v : Nat)                  -- a storage value
+  | tomb                            -- `txn.Set([]byte{0}, nil)`: what `stage` writes for a delete entry
+  | strie (c : Nat) (content : AMap Nat)   -- nodes of a storage trie
+  | atrie (content : AMap AVal)     -- nodes of the account trie, and the marker of its root
+  | raw (t : Nat)                   -- `SetRawKV` (contract code)
+deriving Repr, DecidableEq
+
+/-- what `bufferedStorage.stage` persists -/
+def Storage.persisted (c : Nat) (st : Storage) : List Datum :=
+  .strie c st.trie :: ((st.buf.exportAll.getD []).map fun e =>
+    match e.2 with
+    | some v => Datum.sval v
+    | none => Datum.tomb)
+
+/-- what `StateDB.Commit` persists (in addition to what the store already holds) -/
+def SDB.persisted (s : SDB) : List Datum :=
+  (s.cache.flatMap fun p => p.2.persisted p.1) ++
+    (.atrie s.trie :: ((s.buf.exportAll.getD []).map fun e => Datum.acct e.2))
+
+/-- A block: a history in which `SetCode`s (raw writes) are interleaved; then `Update` and `Commit`.
+The result: the committed StateDB and everything written to the store. -/
+inductive POp where
+  | db (o : BOp)
+  | raw (t : Nat)
+
+def POp.dbOps : List POp → List BOp
+  | [] => []
+  | .db o :: t => o :: POp.dbOps t
+  | .raw _ :: t => POp.dbOps t
+
+def POp.raws : List POp → List Nat
+  | [] => []
+  | .db _ :: t => POp.raws t
+  | .raw x :: t => x :: POp.raws t
+
+/-- the surviving operations of a block, raw writes included: a raw write inside a reverted span is
+not among them (but it has reached the store) -/
+def survivorsPAux : List POp × List Nat → List POp → List POp × List Nat
+  | st, [] => st
+  | (live, marks), .db (.op o) :: t => survivorsPAux (live ++ [.db (.op o)], marks) t
+  | (live, marks), .raw x :: t => survivorsPAux (live ++ [.raw x], marks) t
+  | (live, marks), .db .snap :: t => survivorsPAux (live, marks ++ [live.length]) t
+  | (live, marks), .db (.rollbackTo j) :: t =>
+    match marks[j]? with
+    | some m => survivorsPAux (live.take m, marks.take (j + 1)) t
+    | none => survivorsPAux (live, marks) t
+
+def survivorsP (h : List POp) : List POp := (survivorsPAux ([], []) h).1
+
+/-- Execute a block and commit it: `(committed StateDB, data written to the store)`. -/
+def commitBlock (s0 : SDB) (h : List POp) : Option (SDB × List Datum) :=
+  match runB (s0, []) (POp.dbOps h) with
+  | none => none
+  | some (s, _) =>
+    match s.update with
+    | none => none
+    | some s1 =>
+      match s1.commit with
+      | none => none
+      | some s2 => some (s2, (POp.raws h).map Datum.raw ++ s1.persisted)
 
 end Aergo.Buffer
